@@ -323,6 +323,10 @@ def main(argv):
             st, why = classify(mod, r)
             r["status"], r["why"] = st, why
             kfid = r["case"].get("_kf") or r.get("kf")
+            kc = getattr(mod, "known_class", None)
+            if kfid is None and kc is not None and st == "violation":
+                # the module recognises the failure as an instance of a recorded open finding's class
+                kfid = kc(r["case"], r["impl"], why)
             if st in ("violation", "mismatch") and kfid in open_kf and C.same(r["model"], r["impl"]):
                 # the code misbehaves exactly as the recorded, modelled defect
                 r["status"] = "known"
